@@ -24,7 +24,8 @@ EXC = {'std::invalid_argument': 1, 'std::runtime_error': 2, 'std::length_error':
        'std::range_error': 12, 'std::bad_variant_access': 13, 'std::exception': 99}
 
 
-SYSREC = {'in_addr': 'cxx_in_addr', 'in6_addr': 'cxx_in6_addr', 'timeval': 'cxx_timeval'}
+SYSREC = {'in_addr': 'cxx_in_addr', 'in6_addr': 'cxx_in6_addr', 'timeval': 'cxx_timeval',
+          'std::random_device': 'cxx_random_device'}
 
 
 def mangle(q):
@@ -176,6 +177,10 @@ class Lowering:
         if k == 'tmpl':
             name = t.name
             args = [self.resolve(a) for a in t.args]
+            if name == '__gnu_cxx::__normal_iterator' and len(args) == 2:
+                return T('tmpl', 'iter', args=[args[1]])
+            if name in ('std::_Deque_iterator',) and len(args) == 3:
+                return T('tmpl', 'iter', args=[T('tmpl', 'std::deque', args=[args[0]])])
             if name in ('std::vector', 'std::deque', 'std::list') and len(args) >= 1:
                 args = args[:1]
             if name in ('std::basic_string', 'std::basic_string_view'):
@@ -335,6 +340,14 @@ class Lowering:
                 self.typedef(name, f'typedef struct {name}_ent {{ {self.ctype(kt)} first; {self.ctype(vt)} second; }} {name}_ent;\n'
                              f'typedef struct {name} {{ {name}_ent e[{cap}]; uint64_t n; }} {name};')
                 return name
+            if n == 'std::variant':
+                name = 'var_' + '_'.join(self.short(a) for a in t.args)
+                if len(name) > 60:
+                    import hashlib
+                    name = 'var_' + hashlib.sha1(name.encode()).hexdigest()[:10]
+                alts = ' '.join(f'{self.ctype(a)} _{i};' for i, a in enumerate(t.args))
+                self.typedef(name, f'typedef struct {name} {{ uint8_t index; {alts} }} {name};')
+                return name
             if n == 'std::initializer_list':
                 return self.ctype(T('tmpl', 'std::span', args=[t.args[0]]))
         raise LoweringError(f'no C type for {t!r}')
@@ -438,7 +451,7 @@ class Lowering:
                     'std::basic_string': 'string', 'std::basic_string_view': 'strview', 'std::optional': 'optional',
                     'std::chrono::duration': 'duration', 'std::chrono::time_point': 'time_point',
                     'std::unordered_map': 'map', 'std::map': 'map', 'std::pair': 'pair', 'enum': 'enum',
-                    'iter': 'iter', 'std::initializer_list': 'span'}.get(t.name, t.name)
+                    'iter': 'iter', 'std::initializer_list': 'span', 'std::variant': 'variant'}.get(t.name, t.name)
         if t.kind == 'rec':
             return 'rec'
         return t.kind
@@ -456,6 +469,10 @@ class Lowering:
                 self.need_init(c)
                 return f'{c}__default()'
             return f'(({c}){{0}})'
+        if t.kind == 'tmpl' and t.name == 'std::variant':
+            a0 = t.args[0]
+            if a0.kind == 'rec' and self.record_inits.get(self.ctype(a0)):
+                return f'(({self.ctype(t)}){{.index = 0, ._0 = {self.zero(a0)}}})'
         return f'(({self.ctype(t)}){{0}})'
 
     def need_init(self, cname):
